@@ -96,6 +96,17 @@ static const char* list_invalid(const ZSTD_Sequence* s, size_t ns, size_t srcSiz
 }
 
 static void dbg_seq(void* o, uint32_t ll, uint32_t ml, uint32_t ov, size_t off, size_t pos) { (void)o; if (pos >= 145000 && pos <= 160000) fprintf(stderr, "  R seq: ll=%u ml=%u offset_value=%u offset=%zu pos_at_match=%zu\n", ll, ml, ov, off, pos); }
+/* digested dictionary for this context: cParams carrying the context's window and minMatch (a parse is valid for the parameters it is compressed with), or a plain level */
+static size_t supply_cdict(ZSTD_CCtx* c, ZSTD_CDict** out, int sm, const void* buf, size_t len, ZSTD_dictContentType_e dct, int level, int wlog, unsigned minMatch, vrng* r)
+{
+    ZSTD_CDict* cd;
+    if (sm == 3 && dct == ZSTD_dct_rawContent) cd = ZSTD_createCDict(buf, len, level);
+    else { ZSTD_compressionParameters cp = ZSTD_getCParams(level, 0, len); cp.minMatch = minMatch; cp.windowLog = (unsigned)wlog; if (cp.hashLog > cp.windowLog + 1) cp.hashLog = cp.windowLog + 1; if (cp.chainLog > cp.windowLog + 1) cp.chainLog = cp.windowLog + 1;
+        cd = ZSTD_createCDict_advanced(buf, len, vr_chance(r, 1, 2) ? ZSTD_dlm_byRef : ZSTD_dlm_byCopy, dct, cp, ZSTD_defaultCMem); }
+    if (!cd) return (size_t)-ZSTD_error_dictionary_corrupted;
+    *out = cd; ZSTD_CCtx_setParameter(c, ZSTD_c_forceAttachDict, (int)vr_u(r, 4));
+    return ZSTD_CCtx_refCDict(c, cd);
+}
 static int g_dictFormatted;   /* the dictionary handed to verify_frame is a formatted one (magic, entropy tables, content) */
 static void verify_frame(const char* what, const uint8_t* f, size_t fsz, const uint8_t* src, size_t n, const uint8_t* dict, size_t dlen, const char* desc, size_t windowLimit)
 {
@@ -185,14 +196,19 @@ static void run_positive(long idx)
          * the parse only refers to the content; the tables are what the sequence encoder may re-use ("repeat" mode) in the first blocks */
         uint8_t* fdict = NULL; size_t flen = 0; char feat[80] = "";
         if (dict && dictLen >= 8 && (farDict || vr_chance(&r, 1, 2))) { fdict = (uint8_t*)malloc(dictLen + 4096); g_ofExact = farDict && vr_chance(&r, 2, 3); flen = build_dict(&r, fdict, dictLen + 4096, dict, dictLen, feat, sizeof feat); g_ofExact = 0; if (!flen) { free(fdict); fdict = NULL; } }
-        if (fdict) { size_t const e = vr_chance(&r, 1, 2) ? ZSTD_CCtx_refPrefix_advanced(c, fdict, flen, ZSTD_dct_fullDict) : ZSTD_CCtx_loadDictionary_advanced(c, fdict, flen, ZSTD_dlm_byRef, ZSTD_dct_fullDict);
+        /* ways of supplying the dictionary: prefix, loadDictionary, or a digested CDict (built with this context's window / minMatch, or plainly from a level when the parse
+         * does not rely on 3-byte matches) under every attach preference (default / attach / copy / re-load at frame start) */
+        ZSTD_CDict* cdict = NULL; int const sm = dict ? (int)vr_u(&r, C.minMatch >= 4 ? 4 : 3) : 0; const char* const smName[4] = { "refPrefix", "loadDictionary", "refCDict(advanced)", "refCDict(createCDict)" };
+        #define SUPPLY(buf, len, dct) ( sm == 0 ? ZSTD_CCtx_refPrefix_advanced(c, buf, len, dct) : sm == 1 ? ZSTD_CCtx_loadDictionary_advanced(c, buf, len, ZSTD_dlm_byRef, dct) : supply_cdict(c, &cdict, sm, buf, len, dct, level, wlog, C.minMatch, &r) )
+        if (fdict) { size_t const e = SUPPLY(fdict, flen, ZSTD_dct_fullDict);
             ZSTD_DDict* dd = ZSTD_createDDict_advanced(fdict, flen, ZSTD_dlm_byRef, ZSTD_dct_fullDict, ZSTD_defaultCMem);
-            if (ZSTD_isError(e) || !dd) { v_stat("formatted_dictionaries_refused_by_a_loader", 1); ZSTD_CCtx_refPrefix(c, NULL, 0); ZSTD_CCtx_loadDictionary(c, NULL, 0); free(fdict); fdict = NULL; } else v_stat("formatted_dictionaries", 1); ZSTD_freeDDict(dd); }
-        if (dict && !fdict) { if (vr_chance(&r, 1, 2)) ZSTD_CCtx_refPrefix_advanced(c, dict, dictLen, ZSTD_dct_rawContent); else ZSTD_CCtx_loadDictionary_advanced(c, dict, dictLen, ZSTD_dlm_byRef, ZSTD_dct_rawContent); }
+            if (ZSTD_isError(e) || !dd) { v_stat("formatted_dictionaries_refused_by_a_loader", 1); ZSTD_CCtx_refPrefix(c, NULL, 0); ZSTD_CCtx_loadDictionary(c, NULL, 0); ZSTD_CCtx_refCDict(c, NULL); ZSTD_freeCDict(cdict); cdict = NULL; free(fdict); fdict = NULL; } else v_stat("formatted_dictionaries", 1); ZSTD_freeDDict(dd); }
+        if (dict && !fdict) { cdict = NULL; (void)SUPPLY(dict, dictLen, ZSTD_dct_rawContent); }
+        if (dict) v_cell("dict_supply", "%s%s", smName[sm], fdict ? "|formatted" : "|raw");
         size_t const cs = ZSTD_compressSequences(c, dst, cap, v.s, v.n, src, n);
-        if (ZSTD_isError(cs)) v_viol("positive:valid-parse-refused", "%s nbSeq=%zu%s%s: %s", desc, v.n, fdict ? " formatted-dict " : "", feat, ZSTD_getErrorName(cs));
+        if (ZSTD_isError(cs)) v_viol("positive:valid-parse-refused", "%s nbSeq=%zu%s%s supply=%s: %s", desc, v.n, fdict ? " formatted-dict " : "", feat, dict ? smName[sm] : "-", ZSTD_getErrorName(cs));
         else { char d2[400]; snprintf(d2, sizeof d2, "%s%s%s", desc, fdict ? " formatted-dict " : "", feat); g_dictFormatted = fdict != NULL; verify_frame("own-parser", dst, cs, src, n, fdict ? fdict : dict, fdict ? flen : dictLen, d2, C.blockMax); g_dictFormatted = 0; }
-        free(fdict);
+        free(fdict); ZSTD_CCtx_refCDict(c, NULL); ZSTD_freeCDict(cdict);
         v_stat("parse_sequences", (long)v.n); v_stat("parse_dict_reaching", st[0]); v_stat("parse_long_matches", st[1]); v_stat("parse_matches_crossing_128K", st[2]); v_stat("parse_explicit_blocks", st[3]);
         v_cell("positive_cell", "%s|mm%u|rep%d|dict%d|style%d|maxblk%d", C.explicitDelims ? "explicit" : "nodelim", minMatch, repSearch, dictLen == 0 ? 0 : feat[0] ? 2 : 1, C.style, maxBlock != 0);
         v_sample("%s nbSeq=%zu first=(%u,%u,%u)", desc, v.n, v.n ? v.s[0].offset : 0, v.n ? v.s[0].litLength : 0, v.n ? v.s[0].matchLength : 0);
